@@ -3,6 +3,7 @@ EXTENDS Refs
 KAll == {"param", "paramw", "bind1", "meth", "bind2", "rx", "nested", "nestedd", "nestedt", "nestedb", "nested2", "const"}
 KNoK == {"param", "paramw", "bind1", "meth", "bind2", "rx", "nested", "nestedd"}
 KProp == {"param", "paramw", "bind1", "bind2", "rx", "nested", "nestedb", "const"}
+KRo == {"param", "bind1", "rx", "nested", "const", "ro"}        \* k is readonly
 KClamp == {"param", "bind1", "rx", "meth"}
 KBasic == {"param", "bind1", "nested"}
 AUpd == {"source", "updctx", "ref"}
